@@ -5,6 +5,7 @@ package xstate
 
 import (
 	"encoding/hex"
+	"strings"
 
 	"verif/core"
 	"verif/der"
@@ -33,6 +34,9 @@ type Options struct {
 	// Focus, if set, is called with the parsed tree of each seed and returns
 	// the subtrees in which depth-2 exploration takes place.
 	Focus func(s *seeds.Seed, root *der.Node) []*der.Node
+	// NoCompound leaves the compound edit "duplicate an element and change one leaf of the copy" out
+	// (checks whose oracle costs hundreds of lint runs per state).
+	NoCompound bool
 }
 
 // Explore enumerates states, hands parser-accepted ones that belong to this
@@ -82,6 +86,9 @@ func Explore(ctx *core.Ctx, rep *core.Report, opt Options, visit func(*State)) {
 			continue
 		}
 		der.Successors(root, nil, func(desc string, enc []byte) {
+			if opt.NoCompound && strings.Contains(desc, ":dm") {
+				return
+			}
 			eval(sd, []string{desc}, enc)
 		})
 		if opt.Focus != nil {
